@@ -41,6 +41,15 @@ CHECKS = {
     "C19": dict(tech="offline trace oracle: every system-flagged delivery must be backed by an observed loop event or module transition of the named module (counting, per recipient), tick-rate bound from trace timestamps, count-based completeness for literal subscriptions held over whole loop runs; sysnotif profile, plain build, both modes",
                 text="Transitions are the module state changes observed at every call/callback boundary; received system notifications are counted against them per (recipient, topic, named module) in both directions where the statement is unambiguous; tick notifications are bounded by elapsed time over period.",
                 ref="C19"),
+    "C03": dict(tech="offline trace oracle (event-to-registered-source matching incl. user-data tokens, one-shot rule, conservation of harness-written pipe tokens, loop-exit rule with requested quit code) + two-mode differential (blocking loop vs dispatch loop on the same scenario); sources profile with scripted errno poisoning in every callback and 1-100 descriptors ready per poll batch; plain build",
+                text="Every delivered event is matched against the sources its module registered (kind, key, user-data token); tokens written into registered pipes are conserved; every loop run must end for a stated reason with the requested code whatever errno the callbacks leave; the deterministic deliveries of both driving modes are compared.",
+                ref="C03"),
+    "C09": dict(tech="offline trace oracle: reference keyed sets per (module, source kind) updated from every register/deregister call and compared with m_mod_src_len() observed after every record; registry profile with colliding key pools and extreme keys on idle/running/paused/stopped modules; plain build",
+                text="Generated register/deregister sequences over all eight source kinds (keys from small colliding pools and extremes such as timer periods 2^32 apart, threshold pairs with equal sums) are judged call by call: new key accepted, present key -EEXIST, absent key refused, counts equal to the set sizes after every call, sets survive pause/resume and loop restart and vanish at stop.",
+                ref="C09"),
+    "C20": dict(tech="link-time wrapped descriptor ledger (close/pipe/dup/epoll_create1/timerfd_create/signalfd/inotify_init1/eventfd/pidfd_open of the library objects) + /proc/self/fd diff at quiescent points, judged by an offline oracle; sources/hostile/registry/mixed profiles with auto-close, dup and one-shot mixes; plain build",
+                text="Every close() the library issues is classified against the ledger (own and open / user's with a released auto-close registration, once) and at quiescence nothing the library opened may remain while every auto-close descriptor whose source is gone must have been closed.",
+                ref="C20"),
 }
 
 NOT_YET = "check not built yet in this round (work in progress, see DESIGN.md §3 for the planned monitor)"
